@@ -651,6 +651,16 @@ func c18Programs(thorough bool) []c18Prog {
 	add("LE-misc", cRoute(cL("$ r = 5%2"), cL("$ q = a %b"), cL("> r % q")))
 	add("LE-misc", cB("@ GET /x", cL("> 1")), cB("@GET /y", cL(">1")), cB("@ GET /z", cL("$x=1"), cL(">x")))
 	add("LE-misc", cL("  "), cL(""), cL("# only a comment"))
+	// scale: one physical line far beyond any line buffer a tool may use (64 KiB is bufio.Scanner's default token
+	// limit): a long string literal, a long comment, a long array literal, a long line of blanks - each followed by more
+	// program text that must survive
+	for _, n := range []int{65536, 70000, 200000} {
+		long := strings.Repeat("a", n)
+		add("LE-long-line", cRoute(cL("$ s = \""+long+"\""), cL("> 1")), cB("@ GET /after", cL("> 2")))
+		add("LE-long-line", cL("# "+long), cRoute(cL("> 1")))
+		add("LE-long-line", cRoute(cL("$ a = ["+strings.TrimSuffix(strings.Repeat("1, ", n/3), ", ")+"]"), cL("> 1")), cB("@ GET /after", cL("> 2")))
+		add("LE-long-line", cRoute(cL("$ x = 1"+strings.Repeat(" ", n)), cL("> x")), cB("@ GET /after", cL("> 2")))
+	}
 	add("LE-misc")
 	return out
 }
